@@ -222,6 +222,21 @@ def run_one(res, db, tag):
                                       % (r['name'], cal, len(holders)), c['loc'], aliases=sorted(map(str, holders)))
                     else:
                         res.violated('C19.a', tag + '%s:escapes:%s' % (f.name, r['name']), 'writable global `%s` escapes to a non-const parameter of %s' % (r['name'], cal or S(c.get('fnexpr'))), c['loc'])
+    # every writable global and every function-local static: follow its address through locals, parameters and record fields,
+    # whether it first escapes as a call argument (above) or by being assigned to a pointer (`p = table;`)
+    statics = {}
+    for n, f in sorted(db.fn.items()):
+        for bid, i, st in f.stmts():
+            for v in nodes(st, lambda y: y.get('k') == 'var' and y.get('decl') == 'static'):
+                if 'const' not in (v.get('t') or '').split('*')[0]:
+                    statics.setdefault(v['name'], f.name)
+    for gname in sorted({g['name'] for u, g in writable} | set(statics)):
+        if any(o['rule'] == 'C19.a' and o['status'] == 'VIOLATED' and o['key'].endswith(':' + gname) for o in res.obs):
+            continue
+        ws, holders = writes_through_alias(db, gname)
+        for fn2, x in ws:
+            res.violated('C19.a', tag + '%s:write-through-alias:%s' % (fn2, gname), 'store through an alias of the %s object `%s`: %s - the object is shared by every parser in the process' % ('function-local static' if gname in statics else 'global', gname, S(x)[:120]), x['loc'])
+    res.analysed[tag + 'function-local statics'] = sorted(statics)
     for u, g in db.globals:
         key = tag + 'global:' + g['name']
         if not any(o['rule'] == 'C19.a' and o['status'] == 'VIOLATED' and o['key'].endswith(':' + g['name']) for o in res.obs):
